@@ -112,8 +112,12 @@ class DefaultEvaluatorStep(PlanStep):
             )
 
             assert results
-            assert isinstance(results[0], FunctionResults)
-            if results[0].functions is None:
+            assert all(isinstance(item, FunctionResults) for item in results)
+            # Multiple variable vectors may be evaluated, check all of them:
+            if any(
+                item.functions is None  # type: ignore[union-attr]
+                for item in results
+            ):
                 exit_code = OptimizerExitCode.TOO_FEW_REALIZATIONS
 
             if metadata is not None:
